@@ -988,7 +988,8 @@ package fsm
 //@   assumed
 //@   results hdr, err
 //@   ensures err == nil ==> hdr != nil
-//@   modifies family(G_any_rest)
+//@   ensures world.eofseen == (err == io.EOF)      // (volatile) the archive ended regularly
+//@   modifies family(G_any_rest), world.eofseen
 
 // recover (checkpoint format): same install discipline - un-tar into a new directory, open it, read
 // the index, only then switch `current` durably and swap the DB pointer
@@ -998,6 +999,7 @@ package fsm
 //@   requires c != nil && c.fsm != nil && c.fsm.fs != nil && c.fsm.log != nil && c.fsm.metrics != nil && r != nil && parentOf(c.fsm.dirname) != c.fsm.dirname
 //@   requires [opened] c.fsm.fs.vHas[c.fsm.dirname] && isDirP(c.fsm.fs, c.fsm.dirname)
 //@   requires [inv] recoverable(c.fsm.fs, c.fsm.dirname) && (c.fsm.fs.dCur[c.fsm.dirname] != "" ==> c.fsm.fs.vHas[pjoin(c.fsm.dirname, c.fsm.fs.dCur[c.fsm.dirname])]) && c.fsm.fs.vCur[c.fsm.dirname] == c.fsm.fs.dCur[c.fsm.dirname] && c.fsm.fs.dCur[c.fsm.dirname] != "current.updating"
+//@   before (*FSM).openDB assert [C08.archive.complete+C04] world.eofseen      // the un-tarred directory is opened only after the archive ended regularly: a truncated archive is an error, never a smaller checkpoint
 //@   before pebble.ReplaceCurrentDBFile assert [C08.install.opened+C04] fs.opened[pjoin(dir, fs.updName[dir])]
 //@   ensures [C08.install.recoverable] recoverable(c.fsm.fs, c.fsm.dirname)
 //@   ensures [C08.install.swap] c.fsm.pebble.v != old(c.fsm.pebble.v) ==> c.fsm.fs.dCur[c.fsm.dirname] == c.fsm.fs.vCur[c.fsm.dirname] && c.fsm.fs.opened[pjoin(c.fsm.dirname, c.fsm.fs.dCur[c.fsm.dirname])]
